@@ -1,26 +1,29 @@
-use clap::{Arg, ArgAction, Command};
-use clap_complete::aot::{generate, Bash, Elvish, Fish, PowerShell, Zsh};
+//! throw-away measurement: how many tape words do the generators consume?
+use vcore::Tape;
+use vmodel::argv::{gen_argv_broad, gen_argv_hybrid};
+use vmodel::gen::{gen_broad, GenOpts};
 fn main() {
-    let which = std::env::args().nth(1).unwrap_or_default();
-    let mut cmd = Command::new("my-prog")
-        .about("about text")
-        .arg(Arg::new("verbose").short('v').long("verbose").visible_alias("verb").visible_short_alias('w').action(ArgAction::Count).help("help's text"))
-        .arg(Arg::new("mode").long("mode").value_parser([clap::builder::PossibleValue::new("fast").help("go fast"), clap::builder::PossibleValue::new("slow"), clap::builder::PossibleValue::new("hid").hide(true)]).help("mode help"))
-        .arg(Arg::new("file").value_name("FILE"))
-        .subcommand(
-            Command::new("sub-one").visible_alias("s1").about("sub one about").arg(Arg::new("deep").long("deep").action(ArgAction::SetTrue)).subcommand(
-                Command::new("leaf").arg(Arg::new("leafy").long("leafy").short('l')).arg(Arg::new("pos").value_parser(["pa", "pb"])),
-            ),
-        )
-        .subcommand(Command::new("hidden").hide(true));
-    let mut out = Vec::new();
-    match which.as_str() {
-        "bash" => generate(Bash, &mut cmd, "my-prog", &mut out),
-        "zsh" => generate(Zsh, &mut cmd, "my-prog", &mut out),
-        "fish" => generate(Fish, &mut cmd, "my-prog", &mut out),
-        "powershell" => generate(PowerShell, &mut cmd, "my-prog", &mut out),
-        "elvish" => generate(Elvish, &mut cmd, "my-prog", &mut out),
-        _ => generate(clap_complete_nushell::Nushell, &mut cmd, "my-prog", &mut out),
+    let mut x: u64 = 0x9E3779B97F4A7C15;
+    let mut next = || {
+        x ^= x << 13;
+        x ^= x >> 7;
+        x ^= x << 17;
+        (x >> 16) as u32
+    };
+    let mut spec_used = Vec::new();
+    let mut argv_used = Vec::new();
+    for i in 0..20000 {
+        let words: Vec<u32> = (0..4000).map(|_| next()).collect();
+        let mut t = Tape::new(&words);
+        let spec = gen_broad(&mut t, &GenOpts::default());
+        let a = t.used();
+        let _ = if i % 2 == 0 { gen_argv_broad(&mut t, &spec) } else { gen_argv_hybrid(&mut t, &spec) };
+        spec_used.push(a);
+        argv_used.push(t.used() - a);
     }
-    print!("{}", String::from_utf8_lossy(&out));
+    spec_used.sort();
+    argv_used.sort();
+    let q = |v: &Vec<usize>, p: f64| v[((v.len() - 1) as f64 * p) as usize];
+    println!("spec words: p10={} p50={} p90={} p99={} max={}", q(&spec_used, 0.1), q(&spec_used, 0.5), q(&spec_used, 0.9), q(&spec_used, 0.99), q(&spec_used, 1.0));
+    println!("argv words: p10={} p50={} p90={} p99={} max={}", q(&argv_used, 0.1), q(&argv_used, 0.5), q(&argv_used, 0.9), q(&argv_used, 0.99), q(&argv_used, 1.0));
 }
